@@ -102,6 +102,24 @@ Proof.
   exact (step_inv (i_pop s) (EvDivide (in_div inp)) Hinv (Hok eq_refl)).
 Qed.
 
+Lemma iteration_step_ok : forall inp s, PopInv (i_pop s) -> uses_ok (i_log s) = true -> inputs_ok_at inp s ->
+  PopInv (i_pop (run_iteration documented_order inp s)) /\ uses_ok (i_log (run_iteration documented_order inp s)) = true.
+Proof.
+  intros inp s Hinv Hlog Hok.
+  pose proof (mid_pop_inv inp s Hinv Hok) as Hmid.
+  split.
+  - rewrite iteration_population.
+    exact (step_inv (mid_pop inp s) (EvRemove (in_below inp)) Hmid I).
+  - rewrite iteration_log. rewrite !uses_ok_app.
+    pose proof (popinv_locals _ Hmid) as Hl.
+    cbn [uses_ok]. rewrite Hl, Hlog.
+    destruct (Nat.eqb (Nat.modulo (i_iter s) 50) 0); destruct (negb (in_tmp inp)); reflexivity.
+Qed.
+
+(* stated for a generic order: with `documented_order` the conversion test would try to evaluate the twelve phases *)
+Lemma run_iterations_cons : forall o i r s, run_iterations o (i :: r) s = run_iterations o r (run_iteration o i s).
+Proof. reflexivity. Qed.
+
 (* I4: across any number of iterations with any history of divisions and removals, the invariant of C08 holds between
    iterations, and EVERY phase that dereferences stored list indices ran on a population whose list indices were the
    positions *)
@@ -109,16 +127,11 @@ Lemma uses_see_positions : forall (inps : list inputs) (s : istate),
   PopInv (i_pop s) -> uses_ok (i_log s) = true -> inputs_all_ok inps s ->
   PopInv (i_pop (run_iterations documented_order inps s)) /\ uses_ok (i_log (run_iterations documented_order inps s)) = true.
 Proof.
-  induction inps as [|inp r IH]; intros s Hinv Hlog Hok; cbn [run_iterations]; [split; assumption|].
-  cbn [inputs_all_ok] in Hok. destruct Hok as [Hok Hrest].
-  pose proof (mid_pop_inv inp s Hinv Hok) as Hmid.
-  apply IH; [| |exact Hrest].
-  - rewrite iteration_population.
-    exact (step_inv (mid_pop inp s) (EvRemove (in_below inp)) Hmid I).
-  - rewrite iteration_log. rewrite !uses_ok_app.
-    pose proof (popinv_locals _ Hmid) as Hl.
-    cbn [uses_ok]. rewrite Hl, Hlog.
-    destruct (Nat.eqb (Nat.modulo (i_iter s) 50) 0); destruct (negb (in_tmp inp)); reflexivity.
+  induction inps as [|inp r IH]; intros s Hinv Hlog Hok; [split; assumption|].
+  destruct Hok as [Hok Hrest].
+  destruct (iteration_step_ok inp s Hinv Hlog Hok) as [H1 H2].
+  rewrite run_iterations_cons.
+  exact (IH (run_iteration documented_order inp s) H1 H2 Hrest).
 Qed.
 
 (* I5: a cell found below its minimum volume by the force phase is not in the population when the next iteration starts,
